@@ -99,8 +99,21 @@ func genBuffer(cfg simkit.RunConfig) *Scenario {
 	}
 	flushy := 6 + r.Intn(14) // weight of flush operations
 	finishy := 3 + r.Intn(14)
+	stagey := r.Intn(4) == 0 // a program that works mostly inside staging levels (statement-like: stage, write, read, release/cleanup)
 	for i := 0; i < n; i++ {
 		x := r.Intn(100 + flushy + finishy)
+		if stagey && r.Intn(3) == 0 {
+			switch {
+			case depth == 0:
+				x = 79 // stage
+			case r.Intn(3) == 0:
+				x = 83 // release / cleanup
+			case r.Intn(2) == 0:
+				x = 70 // batch get
+			default:
+				x = r.Intn(36) // write
+			}
+		}
 		switch {
 		case x < 26:
 			b.Ops = append(b.Ops, BufOp{K: "set", Keys: []string{pick()}, Val: nextVal()})
@@ -247,9 +260,12 @@ func genTxn(cfg simkit.RunConfig, faulted bool) *Scenario {
 	nextVal := func() string { val++; return fmt.Sprintf("v%d", val) }
 	pick := func() string { return t.Keys[r.Intn(len(t.Keys))] }
 	written := map[string]bool{}
+	inserted := map[string]bool{}
 	write := func(k string) {
 		written[k] = true
-		if r.Intn(4) == 0 {
+		// (a key written with the presume-not-exists flag is not deleted afterwards: within one generation that
+		// turns into a bare existence check, which the reference store does not model)
+		if r.Intn(4) == 0 && !inserted[k] {
 			t.Ops = append(t.Ops, TxnOp{K: "del", Keys: []string{k}})
 		} else {
 			t.Ops = append(t.Ops, TxnOp{K: "set", Keys: []string{k}, Val: nextVal()})
@@ -307,8 +323,14 @@ func genTxn(cfg simkit.RunConfig, faulted bool) *Scenario {
 			case x < 40:
 				write(pick())
 			case x < 43:
+				// insert (presume-not-exists): only on a key the transaction has not written yet
 				k := pick()
+				if written[k] {
+					write(k)
+					break
+				}
 				written[k] = true
+				inserted[k] = true
 				t.Ops = append(t.Ops, TxnOp{K: "insert", Keys: []string{k}, Val: nextVal()})
 			case x < 65:
 				read()
